@@ -1,0 +1,20 @@
+//go:build verif
+
+// Verification hook (build tag "verif" only): read-only view of the primitive
+// prototype table so that an external checker can enumerate every primitive.
+
+package parser
+
+// VerifFuncProtos returns a copy of funcProtos with the argument kinds as
+// token names ("STRING", "BOOL", ...).
+func VerifFuncProtos() map[string][]string {
+	out := make(map[string][]string, len(funcProtos))
+	for name, kinds := range funcProtos {
+		ks := make([]string, len(kinds))
+		for i, k := range kinds {
+			ks[i] = k.String()
+		}
+		out[name] = ks
+	}
+	return out
+}
